@@ -254,6 +254,8 @@ func runC12(c *Ctx) {
 		}
 	}
 
+	checkKnownOutput(c, "C12-R3")
+
 	// R4: confirmed spend releases every input's lease
 	checkLeaseRelease(c, "C12-R4")
 
